@@ -5,12 +5,13 @@ Decided: constant folding of metadata values is exhaustive over the 47 node kind
 is `MetaItem* Expr` over the same expression language; the flow of the comment lines (first -> name, rest ->
 description, offered unconditionally).  NOT decided: how a line is recognised as a //-comment and trimmed
 (line-oriented string processing in Rule::parse)."""
+import re
 import evalsum
 import cfg
 import precedence
 from c07 import extracted_grammar, reachable
 from framework import Inconclusive
-from norm import norm, norm_cond, show
+from norm import norm, norm_cond, short_callee, show
 from tss import Interp, State
 
 LEVEL = "other"
@@ -26,6 +27,23 @@ def find1(f, name, self_part):
     return c[0]
 
 
+def closure_summary_opaque(f, path, opaque_fn):
+    """summary of a closure body (arguments e / (e0, e1)) with one function kept opaque"""
+    b = f.bodies[path]
+    it = Interp(f, opaque=lambda p: p == opaque_fn)
+    st = State()
+    fid = it.new_frame(st)
+    st.frames[fid][1] = ("closure", path, ())
+    for i in range(b["arg_count"] - 1):
+        ty = f.ty(b["locals"][i + 2]["ty"])
+        if ty["k"] == "tuple":
+            st.frames[fid][i + 2] = ("tup", tuple(("sym", "e%d" % j) for j in range(len(ty["args"]))))
+        else:
+            st.frames[fid][i + 2] = ("sym", "e")
+    res = it.run_body(b, st, fid, 0)
+    return sorted((tuple(sorted(set(norm_cond(c) for c in s.conds))), show(norm(it.resolve(s, rv)))) for s, rv in res)
+
+
 def run(res, f, tier):
     obligations = discharged = 0
     samples = []
@@ -38,10 +56,39 @@ def run(res, f, tier):
         else:
             res.violation(key, what, detail)
 
-    flatten = find1(f, "flatten", "")
-    flatten_kv = find1(f, "flatten_keyvalue", "")
-    # ---- constants only, all shapes: tag table of flatten over the 47 node kinds
+    # the constant folder: the crate-local free function (Expr) -> Result<Value, _> (today `flatten`)
+    folders = [d for d, b in f.bodies.items() if b["kind"] == "Fn" and not b.get("parent") and b["arg_count"] == 1
+               and f.ty_s(b["locals"][1]["ty"]) == EXPR and f.ty_s(b["locals"][0]["ty"]).startswith("std::result::Result<value::Value,")
+               and not d.startswith("parse::reval::")]
+    if len(folders) != 1:
+        raise Inconclusive("the constant folder (a function Expr -> Result<Value, _>) was not found: %s" % folders)
+    flatten = folders[0]
+    FS = short_callee(flatten)
+    import c17
+
+    def element_fn_ok(spec_, pair):
+        """the function mapped over the items of a list / the entries of a map folds each item (keeps each key)"""
+        m_fn = re.fullmatch(r"fn (.+)", spec_)
+        m_cl = re.fullmatch(r"closure\((.+)\)", spec_)
+        if m_fn:
+            target = [d for d in f.bodies if short_callee(d) == m_fn.group(1) or d == m_fn.group(1)]
+            if not pair:
+                return target == [flatten]
+            if len(target) != 1:
+                return False
+            o_, _ = evalsum.summarize_fn(f, target[0], arg_names=["kv"], opaque=lambda p: p == flatten)
+            rows_ = sorted((c, r) for c, r, _, _ in o_)
+            return rows_ == sorted([(((FS + "(kv.1)", "fails"),), "Err(%s!err(kv.1))" % FS), (((FS + "(kv.1)", "ok"),), "Ok(tuple(kv.0, %s!(kv.1)))" % FS)])
+        if m_cl:
+            cs = closure_summary_opaque(f, m_cl.group(1).split(",")[0], flatten)
+            if not pair:
+                return cs in ([((), "%s(e)" % FS)],)
+            return cs == sorted([(((FS + "(e1)", "fails"),), "Err(%s!err(e1))" % FS), (((FS + "(e1)", "ok"),), "Ok(tuple(e0, %s!(e1)))" % FS)])
+        return False
+
+    # ---- constants only, all shapes: tag table of the folder over the 47 node kinds
     nkinds = 0
+    reject = set()
     for var in f.adts[EXPR]["variants"]:
         nkinds += 1
         it = Interp(f)
@@ -50,23 +97,27 @@ def run(res, f, tier):
         rows = sorted((tuple(sorted(norm_cond(c) for c in s.conds)), show(norm(it.resolve(s, rv)))) for s, rv in it.run(flatten, [v], st))
         k = var["name"]
         if k == "Value":
-            want = [((), "Ok(e.Value.0)")]
-        elif k == "Vec":
-            C = "Map::collect(IntoIter::map(into_iter(e.Vec.0), fn rule::flatten))"
-            want = sorted([(((C, "fails"),), "Err(%s)" % C.replace("collect(", "collect!err(", 1)), (((C, "ok"),), "Ok(Vec(%s))" % C.replace("collect(", "collect!(", 1))])
-        elif k == "Map":
-            C = "Map::collect(IntoIter::map(into_iter(e.Map.0), fn rule::flatten_keyvalue))"
-            want = sorted([(((C, "fails"),), "Err(%s)" % C.replace("collect(", "collect!err(", 1)), (((C, "ok"),), "Ok(Map(%s))" % C.replace("collect(", "collect!(", 1))])
+            good = rows == [((), "Ok(e.Value.0)")]
+        elif k in ("Vec", "Map"):
+            # Ok(<Vec|Map>(collect of the folded items)) or the first folding error
+            good = False
+            if len(rows) == 2 and all(len(c) == 1 for c, _ in rows) and rows[0][0][0][0] == rows[1][0][0][0]:
+                C = rows[0][0][0][0]
+                mm_ = re.fullmatch(r"\w+::collect\(\w+::map\(into_iter\(e\.%s\.0\), (.+)\)\)" % k, C)
+                byc = dict((c[0][1], r) for c, r in rows)
+                okr = byc.get("ok", "")
+                good = bool(mm_) and element_fn_ok(mm_.group(1), k == "Map") and byc.get("fails") == "Err(%s)" % C.replace("collect(", "collect!err(", 1) \
+                    and okr in ("Ok(%s(%s))" % (k, C.replace("collect(", "collect!(", 1)),)
         else:
-            want = [((), "Err(InvalidMetadata)")]
-        ob(rows == want, "C14|flatten|%s" % k, "constant folding of a %s node: expected %s, found %s" % (k, want, rows))
+            good = len(rows) == 1 and not rows[0][0] and re.fullmatch(r"Err\(\w+\)", rows[0][1]) is not None
+            if good:
+                reject.add(rows[0][1])
+        ob(good, "C14|flatten|%s" % k, "constant folding of a %s node: a literal folds to its value, a list / map folds item by item (first failure wins), "
+           "anything else is rejected: found %s" % (k, rows))
         if k in ("Value", "Vec", "Neg"):
             samples.append({"flatten": k, "outcomes": [r for _, r in rows]})
+    ob(len(reject) == 1, "C14|flatten|rejection", "every non-constant node must be rejected with the same error: %s" % sorted(reject))
     res.floor("node kinds folded", nkinds, 47)
-    outs, _ = evalsum.summarize_fn(f, flatten_kv, arg_names=["kv"], opaque=lambda p: p == flatten)
-    rows = sorted((c, r) for c, r, _, _ in outs)
-    ob(rows == sorted([((("rule::flatten(kv.1)", "fails"),), "Err(rule::flatten!err(kv.1))"), ((("rule::flatten(kv.1)", "ok"),), "Ok(tuple(kv.0, rule::flatten!(kv.1)))")]),
-       "C14|flatten_keyvalue", "a map entry must keep its key and fold its value: %s" % rows)
     # ---- metadata table: one item, every (key is name?, folding outcome)
     parse = find1(f, "parse", "RuleBuilder")
     b = f.bodies[parse]
@@ -76,7 +127,7 @@ def run(res, f, tier):
     SRC = "into_iter(meta)"
     K, V = "elem0(%s).0" % SRC, "elem0(%s).1" % SRC
     ISNAME = "str::eq(String::index(%s, RangeFull), 'name')" % K
-    FL = "rule::flatten(%s)" % V
+    FL = "%s(%s)" % (FS, V)
     seen = {}
     for s, rv in paths:
         conds = dict(norm_cond(c) for c in s.conds)
@@ -93,13 +144,13 @@ def run(res, f, tier):
             cand = [v_ for k_, v_ in conds.items() if K in k_ and "'name'" in k_ and "::eq" in k_]
             isname = cand[0] if len(cand) == 1 else None
         fl = conds.get(FL)
-        tag = conds.get("rule::flatten!(%s)" % V, "")
+        tag = conds.get("%s!(%s)" % (FS, V), "")
         outcome = "err" if fl == "fails" else ("ok:" + tag[3:] if tag else "ok")
         # a path that decides without asking whether the key is `name` holds for both kinds of key
         for kname in (("name", "other") if isname is None else (("name",) if isname == "val not:0" else ("other",))):
             seen.setdefault((kname, outcome), set()).add(ret)
     ob(seen.get("empty") == "Ok(RuleBuilder(Option::None, expr, BTreeMap::new()))", "C14|meta|none", "without metadata the rule builder must start with no name and no metadata: %s" % seen.get("empty"))
-    ob(seen.get(("name", "ok:String")) == {"Ok(RuleBuilder(Some(rule::flatten!(%s).String.0), expr, BTreeMap::new()))" % V}, "C14|meta|name-string",
+    ob(seen.get(("name", "ok:String")) == {"Ok(RuleBuilder(Some(%s!(%s).String.0), expr, BTreeMap::new()))" % (FS, V)}, "C14|meta|name-string",
        "@name with a string constant must become the rule name: %s" % seen.get(("name", "ok:String")))
     for t in TAGS:
         if t == "String":
@@ -107,7 +158,7 @@ def run(res, f, tier):
         ob(seen.get(("name", "ok:" + t)) == {"Err(InvalidNameValue)"}, "C14|meta|name-%s" % t, "@name with a %s constant must be rejected: %s" % (t, seen.get(("name", "ok:" + t))))
     ob(seen.get(("name", "err")) == {"Err(InvalidMetadata(%s))" % K} and seen.get(("other", "err")) == {"Err(InvalidMetadata(%s))" % K}, "C14|meta|non-constant",
        "a non-constant metadata value must be rejected naming its key: %s / %s" % (seen.get(("name", "err")), seen.get(("other", "err"))))
-    ob(seen.get(("other", "ok")) == {"Ok(RuleBuilder(Option::None, expr, insert(BTreeMap::new(), %s, rule::flatten!(%s))))" % (K, V)}, "C14|meta|insert",
+    ob(seen.get(("other", "ok")) == {"Ok(RuleBuilder(Option::None, expr, insert(BTreeMap::new(), %s, %s!(%s))))" % (K, FS, V)}, "C14|meta|insert",
        "every other @key must be stored under its own key with the folded constant (BTreeMap::insert: the last occurrence wins): %s" % seen.get(("other", "ok")))
     # ---- precedence of sources
     def rows_of(name, self_part, args):
@@ -132,7 +183,7 @@ def run(res, f, tier):
     # ---- flow of the comment lines in Rule::parse: whatever iterator yields them, its FIRST item is offered as the
     # name and the REMAINING items, joined, as the description — both unconditionally (precedence is decided in
     # set_name / set_description, checked above); a rule without any comment line offers neither.
-    from norm import short_callee
+    pass
     rp = evalsum.find_by_name(f, "parse", "ruleset::rule::Rule")
     if len(rp) != 1:
         raise Inconclusive("Rule::parse not found")
